@@ -43,7 +43,7 @@ def call_pool(rng):
         "ini_int %d %d %d" % (sl(), rng.randrange(3), rng.randrange(7)), "ini_double %d %d %d" % (sl(), rng.randrange(3), rng.randrange(7)),
         "ini_bool %d %d %d" % (sl(), rng.randrange(3), rng.randrange(7)), "ini_list %d %d %d %d" % (sl(), rng.randrange(3), rng.randrange(7), sl()),
         "ini_free %d" % sl(),
-        "hash_new %d %d" % (sl(), rng.randrange(11)), "hash_update %d" % sl(), "hash_string %d %d" % (sl(), sl()), "hash_reset %d" % sl(), "hash_free %d" % sl(),
+        "hash_new %d %d" % (sl(), rng.randrange(11)), "hash_update %d" % sl(), "hash_string %d %d" % (sl(), sl()), "hash_reset %d" % sl(), "hash_check %d" % sl(), "hash_free %d" % sl(),
         "ipc_key %d %d" % (sl(), rng.randrange(2)), "ipc_tmpdir %d" % sl(),
         "dir_new %d %d %s" % (sl(), rng.randrange(2), e()), "dir_next %d %d %s" % (sl(), sl(), e()), "dir_path %d %d" % (sl(), sl()),
         "dir_rewind %d" % sl(), "dirent_free %d" % sl(), "dir_free %d" % sl(), "file_remove_missing %s" % e(),
